@@ -416,17 +416,34 @@ def _decode_all(cx):
     st0 = st0.set((owner, iv["id"]), I)
     lb = strip(loops[0]["body"])
     probs = []
+    guards = (T.cmp("ult", 64, T.op("mul", 64, I, T.K(64, 8)), ("call", "len", (PROG,), 64)), T.cmp("ult", 64, I, n_insns))
+    counting = lb.get("k") == "if"
+    rng = [n for n in walk(body) if n.get("k") == "call" and (callee_path(n) or "").endswith("into_iter")]
     if lb.get("k") == "if":
         conds = ev.ev_cond(lb["c"], st0, path)
-        ok_c = len(conds) == 1 and conds[0][0] in (T.cmp("ult", 64, T.op("mul", 64, I, T.K(64, 8)), ("call", "len", (PROG,), 64)),
-                                                  T.cmp("ult", 64, I, n_insns))
+        ok_c = len(conds) == 1 and conds[0][0] in guards
         if not ok_c:
             probs.append("loop guard %s" % [T.show(c) for c, _ in conds][:1])
         then = lb.get("t") or lb.get("then")
         step_block = then
+    elif not rng:
+        # `loop { if <past the end> { break; } .. }`: one iteration is evaluated whole; it must leave the loop exactly
+        # when the guard of the `while` form is false, and otherwise behave as the body of the `while` form
+        counting = True
+        whole = [(v, s2) for v, s2 in ev.ev(lb, st0, path) if s2.feasible]
+        brk = [s2 for _v, s2 in whole if s2.exit is not None and s2.exit[0] == "break"]
+        def negs(g):        # not (a < b)  is  b <= a
+            return (T.lnot(g), T.cmp("ule", g[2], g[4], g[3]), T.cmp("uge", g[2], g[3], g[4]))
+        def writes(s2):
+            return [e for e in s2.effects if e[0] == "store" or (e[0] == "call" and isinstance(e[1], str) and e[1].endswith("::push"))]
+        if not (len(brk) == 1 and not writes(brk[0]) and len(brk[0].conds) == 1 and any(brk[0].conds[0] in negs(g) for g in guards)):
+            return False, "the loop is left under %s (%d leaving paths, effects %s)" % ([[_sh(c) for c in b_.conds] for b_ in brk][:2], len(brk), [len(b_.effects) for b_ in brk])
+        g = next(g for g in guards if brk[0].conds[0] in negs(g))
+        # the rest of the body under the guard
+        st0 = st0.assume(g)
+        step_block = {"k": "block", "stmts": [], "tail": None, "ty": "()", "_paths": [(v, s2) for v, s2 in whole if not (s2.exit is not None and s2.exit[0] == "break")]}
     else:
         # `for i in a..b`: the range handed to into_iter
-        rng = [n for n in walk(body) if n.get("k") == "call" and (callee_path(n) or "").endswith("into_iter")]
         if len(rng) != 1:
             return False, "loop is neither `while` nor a single `for` over a range"
         vals = ev.ev(rng[0]["args"][0], st0, path)
@@ -442,7 +459,7 @@ def _decode_all(cx):
         step_block = arms[0]["body"] if arms else None
     if step_block is None:
         return False, "loop body not found"
-    outs = ev.ev(step_block, st0, path)
+    outs = step_block["_paths"] if isinstance(step_block, dict) and "_paths" in step_block else ev.ev(step_block, st0, path)
     import models as _models
     live = [(v, s2) for v, s2 in outs if s2.feasible and not _models._assertion_failure(s2)]      # assertions: not this rule's business
     if len(live) != 1:
@@ -461,7 +478,7 @@ def _decode_all(cx):
                 probs.append("the pushed value is not get_insn(prog, i) unchanged")
         if s2.exit is not None and s2.exit[0] not in ("continue",):
             probs.append("an iteration leaves the loop (%s)" % (s2.exit[0],))
-        if lb.get("k") == "if":
+        if counting:
             nxt = s2.env.get((owner, iv["id"]))
             if nxt != T.op("add", 64, I, T.K(64, 1)):
                 probs.append("counter step %s" % _sh(nxt))
